@@ -786,6 +786,9 @@ fn damage_nonzero(rng: &mut Rng, frame: &mut [u8]) {
 }
 
 fn pick_n(rng: &mut Rng) -> usize {
+    if crate::runner::small() {
+        return NS[rng.usize_below(13)]; // 1..=24
+    }
     // small capacities are where boundaries interact most; large ones cover 0xFF COBS blocks
     match rng.below(10) {
         0..=4 => NS[rng.usize_below(12)],
@@ -1407,6 +1410,12 @@ impl Scenario for C08 {
             Tier::Quick => 256,
             Tier::Thorough => 512,
         };
+        if crate::runner::small() {
+            // Miri tier: small capacities, short streams, short sweeps
+            let o = GenOpts { overflow: false, max_stream: 40, max_segments: 4 };
+            let l = rng.range(2, 6);
+            return if run % 4 == 0 { gen_acc_trace(rng, &o, Some(l)) } else { gen_acc_trace(rng, &o, None) };
+        }
         if run % sweep_every == 0 {
             let l = match tier {
                 Tier::Quick => rng.range(2, 12),
@@ -1830,6 +1839,11 @@ impl Scenario for C09 {
             Tier::Quick => 256,
             Tier::Thorough => 512,
         };
+        if crate::runner::small() {
+            let o = GenOpts { overflow: true, max_stream: 48, max_segments: 4 };
+            let l = rng.range(2, 6);
+            return if run % 4 == 0 { gen_acc_trace(rng, &o, Some(l)) } else { gen_acc_trace(rng, &o, None) };
+        }
         if run % sweep_every == 0 {
             let l = match tier {
                 Tier::Quick => rng.range(2, 12),
